@@ -886,7 +886,27 @@ pub fn extract_item(sf: &SourceFile, it: &Value, cfg: &Config) -> std::result::R
             let lost = |m: &str| -> XErr {
                 ("lost-anchor", format!("{}: ghost anchor `{}` in `{}`: {}", sf.path, at, path, m))
             };
-            if let Some(k) = at.strip_prefix("loop#") {
+            if let Some((pos, k)) = at.strip_prefix("loop_body_start#").map(|k| (0, k)).or(at.strip_prefix("loop_body_end#").map(|k| (1, k))) {
+                // the first / last position inside the body of the k-th loop (anchors that survive a restructured body)
+                let k: usize = k.parse().map_err(|_| lost("bad ordinal"))?;
+                let l = coll.loops.get(k - 1).ok_or_else(|| lost("no such loop"))?;
+                let body = match l {
+                    Expr::While(w) => &w.body,
+                    Expr::Loop(w) => &w.body,
+                    Expr::ForLoop(w) => &w.body,
+                    _ => unreachable!(),
+                };
+                if pos == 0 {
+                    rw.edits.insert(sf.off(body.brace_token.span.open().end()), format!("\n{}\n", text), "ghost:loop-body-start");
+                } else {
+                    // (after the last statement rather than at the brace: other rules insert at the brace itself)
+                    let at_end = match body.stmts.last() {
+                        Some(st) => sf.range(st.span()).1,
+                        None => sf.off(body.brace_token.span.open().end()),
+                    };
+                    rw.edits.insert(at_end, format!("\n{}\n", text), "ghost:loop-body-end");
+                }
+            } else if let Some(k) = at.strip_prefix("loop#") {
                 let k: usize = k.parse().map_err(|_| lost("bad ordinal"))?;
                 let l = coll.loops.get(k - 1).ok_or_else(|| lost("no such loop"))?;
                 let brace = match l {
